@@ -262,9 +262,10 @@ def run(tier, seed):
                  "subdivision chain is rebuilt from level 0 twice (plain / with getters and global-RNG reseeding between "
                  "the subdivisions) and all clauses are evaluated after every step; non-trivial = every (type, level)"
                  % (top["ico"], top["cube3D"], top["cube4D"]),
-                 bound="levels ico 0..%d, cube3D 0..%d, cube4D 0..%d (node counts %s)" % (
+                 bound="levels ico 0..%d, cube3D 0..%d, cube4D 0..%d (node counts %s)%s" % (
                      top["ico"], top["cube3D"], top["cube4D"],
-                     {n: EXPECTED[n][:top[n] + 1] for n in top}),
+                     {n: EXPECTED[n][:top[n] + 1] for n in top},
+                     "" if tier == "quick" else "; additionally hypercube level 3 (4160 nodes), plain history only"),
                  oracle="independently generated lattices: boundary points of the 2^k-per-edge lattice of "
                         "[-1/sqrt(d), 1/sqrt(d)]^d; frequency-2^k barycentric points of the 20 faces of the unit "
                         "icosahedron (faces = triples of mutually nearest vertices), de-duplicated at 1e-9; matched "
@@ -273,6 +274,9 @@ def run(tier, seed):
                              "negation closure": TOL_BIJ, "indices / order / prefixes": "exact"},
                  exhaustive=True)
     tasks = [(n, top[n], v) for n in ("cube4D", "cube3D", "ico") for v in ("plain", "getters")]
+    extra = tier != "quick"
+    if extra:       # beyond the property's stated domain (hypercube to level 2): level 3 = 4160 nodes, ~7 min, plain history
+        tasks.insert(0, ("cube4D", 3, "plain"))
     out = dict()
     for t, r in pool_map(run_polytope, tasks):
         out[t] = r
@@ -298,16 +302,21 @@ def run(tier, seed):
     nlev = sum(top[n] + 1 for n in top)
     for c in CLAUSES:
         if c == "half-selection":
-            res.clause(c, 2 * (top["cube4D"] + 1))
+            res.clause(c, 2 * (top["cube4D"] + 1) + (4 if extra else 0))
         elif c == "history-variant":
             res.clause(c, len(top))
         else:
-            res.clause(c, 2 * nlev)
+            res.clause(c, 2 * nlev + (4 if extra else 0))
     lv = {n: [out[(n, top[n], "plain")]["levels"][k] for k in range(top[n] + 1)] for n in top
           if "levels" in out.get((n, top[n], "plain"), {})}
     res.notes.append({"per level (plain history)": lv})
-    res.notes.append("hypercube level 3 (4160 nodes) is outside the property's stated domain (level 2) and takes "
-                     "minutes to build; not run")
+    if extra:
+        r3 = out.get(("cube4D", 3, "plain"), {})
+        res.notes.append({"hypercube level 3 (4160 nodes, outside the property's stated domain, plain history only)":
+                          r3.get("levels", [None] * 4)[3] if "levels" in r3 else r3})
+    else:
+        res.notes.append("hypercube level 3 (4160 nodes) is outside the property's stated domain (level 2) and takes "
+                         "about 7 minutes to build; run in the thorough tier only")
     return res
 
 
